@@ -207,7 +207,6 @@ class Topic(Entity):
         Returns:
             List of delivery events for each subscriber.
         """
-        now = self._clock.now if self._clock else Instant.Epoch
         self._messages_published += 1
 
         # Store in history if retaining
@@ -226,6 +225,12 @@ class Topic(Entity):
             self._messages_delivered += 1
             self._delivery_latencies.append(self._delivery_latency)
 
+        # The events reach the engine when this generator returns, after all
+        # latency waits, so they must carry the current instant: stamped with
+        # the instant read before the waits they would lie in the past and the
+        # engine would discard them.
+        now = self._clock.now if self._clock else Instant.Epoch
+        for subscription in active_subscribers:
             delivery_event = Event(
                 time=now,
                 event_type="topic_message",
